@@ -880,6 +880,9 @@ func (e *Engine) intrinsic(name string, fn *ssa.Function, args []Value) (Value, 
 				e.hbMemForce(kind, sl.B.cells[sl.Off+i], "user access to a delivered slice")
 			}
 		}
+		if mv, ok := unwrapAny(args[0]).(MapV); ok && mv.M != nil && e.hb != nil && e.hb.on {
+			e.hbAdd(kind, mv.M, "user access to a map it passed to the library", "")
+		}
 		return nil, true
 	case "vRunLeftoverSpawned":
 		// C19: every goroutine the code started and the harness did not run explicitly must end by itself now
